@@ -702,10 +702,13 @@ pub fn gen_pkgs(rng: &mut Rng, opts: &LibOpts, names: &mut Names) -> Vec<Pkg> {
         }
         if rng.chance(1, 3) {
             // a different track with its own content
+            // half of the time a track whose key begins with the digits of the base track's key
+            // (1 / 10, 0.2 / 0.21): different tracks although one name is a prefix of the other
+            let prefix_related = rng.chance(1, 2);
             let other = match v.as_str() {
-                "1.0.0" | "1.2.3" | "1.9.0" => "2.0.0",
-                "0.2.0" | "0.2.9" => "0.3.0",
-                _ => "3.0.0",
+                "1.0.0" | "1.2.3" | "1.9.0" => if prefix_related { "10.0.0" } else { "2.0.0" },
+                "0.2.0" | "0.2.9" => if prefix_related { "0.21.0" } else { "0.3.0" },
+                _ => if prefix_related { "20.1.0" } else { "3.0.0" },
             };
             let mut p3 = Pkg { ns: "ns".into(), name: "lib".into(), version: Some(other.into()), ifaces: vec![] };
             for k in 0..opts.n_ifaces.max(1).min(2) {
